@@ -42,6 +42,7 @@ enum PollRes {
 enum Fut {
     Read(Pin<Box<a10::io::Read<'static, ReadBuf>>>),
     Recv(Pin<Box<a10::net::Recv<'static, ReadBuf>>>),
+    RecvFrom(Pin<Box<a10::net::RecvFrom<'static, ReadBuf, a10::net::NoAddress>>>),
     MRead(Pin<Box<a10::io::MultishotRead<'static>>>),
     MRecv(Pin<Box<a10::net::MultishotRecv<'static>>>),
 }
@@ -58,6 +59,11 @@ impl Fut {
             Fut::Recv(f) => match f.as_mut().poll(cx) {
                 Poll::Pending => PollRes::Pending,
                 Poll::Ready(Ok(b)) => PollRes::Ok(b),
+                Poll::Ready(Err(e)) => PollRes::Err(e),
+            },
+            Fut::RecvFrom(f) => match f.as_mut().poll(cx) {
+                Poll::Pending => PollRes::Pending,
+                Poll::Ready(Ok((b, _, _))) => PollRes::Ok(b),
                 Poll::Ready(Err(e)) => PollRes::Err(e),
             },
             Fut::MRead(f) => match f.as_mut().poll_next(cx) {
@@ -151,7 +157,7 @@ struct PoolCase {
     feats: Vec<String>,
 }
 
-const KINDS: &[&str] = &["read", "recv", "mread", "mrecv"];
+const KINDS: &[&str] = &["read", "recv", "recvfrom", "mread", "mrecv"];
 
 fn kv(toks: &[&str], k: &str) -> Option<u64> {
     toks.iter().find_map(|x| x.strip_prefix(&format!("{k}="))).and_then(|v| v.parse().ok())
@@ -507,9 +513,21 @@ impl PoolCase {
             if select {
                 lines.push(format!("sqe {name} select"));
             } else {
-                let off = (sqe.addr as usize).wrapping_sub(self.base);
-                op.target = (off, sqe.len as usize);
-                lines.push(format!("sqe {name} addr={off} len={}", sqe.len));
+                // RECVMSG (recv_from): the buffer is the single iovec of the message header
+                let (addr, len) = if sqe.opcode == simk::OP_RECVMSG {
+                    let m = unsafe { *(sqe.addr as *const libc::msghdr) };
+                    if m.msg_iovlen == 1 {
+                        let v = unsafe { *m.msg_iov };
+                        (v.iov_base as u64, v.iov_len as u32)
+                    } else {
+                        (0, 0)
+                    }
+                } else {
+                    (sqe.addr, sqe.len)
+                };
+                let off = (addr as usize).wrapping_sub(self.base);
+                op.target = (off, len as usize);
+                lines.push(format!("sqe {name} addr={off} len={len}"));
             }
         }
         lines
@@ -1137,7 +1155,7 @@ impl Case for PoolCase {
         Some(match rng.weighted(&w) {
             0 => "pool get".into(),
             1 => {
-                let kind = *rng.pick(&["read", "recv"]);
+                let kind = *rng.pick(&["read", "recv", "recvfrom"]);
                 // prefer fresh buffers, sometimes one that already owns a slot
                 let j = if !unowned.is_empty() && rng.chance(2, 3) { *rng.pick(&unowned) } else { *rng.pick(&live) };
                 format!("pool new {} {kind} {j}", self.ops.len())
@@ -1241,7 +1259,11 @@ impl Case for PoolCase {
                     }
                     let b = s_into(std::mem::replace(&mut self.rbs[j], RbSlot::Moved)).unwrap();
                     rb = j;
-                    if kind == "read" { Fut::Read(Box::pin(fd.read(b))) } else { Fut::Recv(Box::pin(fd.recv(b))) }
+                    match kind {
+                        "read" => Fut::Read(Box::pin(fd.read(b))),
+                        "recv" => Fut::Recv(Box::pin(fd.recv(b))),
+                        _ => Fut::RecvFrom(Box::pin(fd.recv_from(b))),
+                    }
                 };
                 self.ops.push(OpSlot { kind, multi, fut: Some(fut), rb, has_rb: !multi, finished: false, user_data: None, select: false, target: (0, 0), pending: VecDeque::new() });
                 vec!["ok".into()]
